@@ -229,7 +229,11 @@ func smCheckNone(c *smCase, sum benchmath.Summary, sorted []float64, cf float64)
 	}
 	// centre = sample median
 	med := (sorted[c.MedLo-1] + sorted[c.MedHi-1]) / 2
-	if math.Abs(sum.Center-med) > smTol*maxAbs {
+	if math.IsInf(med, 0) { // values near the top of the float range: halve first (exact there)
+		med = sorted[c.MedLo-1]/2 + sorted[c.MedHi-1]/2
+	}
+	// (among subnormals the midpoint of two neighbours need not be representable: one step is allowed)
+	if math.Abs(sum.Center-med) > math.Max(smTol*maxAbs, 5e-324) {
 		return "none-centre-not-median", fmt.Sprintf("centre %v, median %v", sum.Center, med)
 	}
 	if math.IsNaN(sum.Lo) || math.IsNaN(sum.Hi) || math.IsInf(sum.Lo, 1) || math.IsInf(sum.Hi, -1) {
@@ -338,6 +342,16 @@ func smReplayNone(c *smCase) Verdict {
 	}
 	vs = append(vs, variant{"all-negative", smShuffled(rng, neg)})
 	vs = append(vs, variant{"ties", smShuffled(rng, smIncreasing(rng, c.N, true))})
+	// "any magnitude": the same spacing near the top of the float range (the two middle values add
+	// up to more than the largest float) and among the subnormals
+	huge, tiny := make([]float64, len(base)), make([]float64, len(base))
+	for i := range base {
+		huge[i] = math.Ldexp(base[i]-base[0]+1000, 1013)
+		tiny[i] = math.Ldexp(base[i]-base[0]+1000, -1074)
+	}
+	if !math.IsInf(huge[len(huge)-1], 0) {
+		vs = append(vs, variant{"near-max-float", smShuffled(rng, huge)}, variant{"subnormal", smShuffled(rng, tiny)})
+	}
 	var first benchmath.Summary
 	for i, v := range vs {
 		s := smSample(v.vals, &thr)
@@ -808,6 +822,20 @@ func smEnd(inf int, v smRat) float64 {
 }
 
 func smReplayRange(c *smCase) Verdict {
+	// interval ends many orders of magnitude away from the centre: the rendered number is still
+	// 100 times the larger relative deviation (judged by value, whatever the digits' layout)
+	for _, h := range []float64{3, 1e6, 1e15, 9.3e16, 1e17, 1e19, 1e30, 1e300} {
+		s := benchmath.Summary{Center: 1, Lo: 1, Hi: h, Confidence: 0.95}
+		got := s.PctRangeString()
+		num := strings.TrimSuffix(strings.TrimPrefix(got, "±"), "%")
+		x, err := strconv.ParseFloat(num, 64)
+		want := 100 * (h - 1)
+		if err != nil || !strings.HasSuffix(got, "%") || math.Abs(x-want) > 0.5+1e-9*want {
+			vd := fail("pct-range-extreme", "Summary{Center:1, Lo:1, Hi:%v}.PctRangeString() = %q, the larger relative deviation is %v%%", h, got, want)
+			vd.Got = got
+			return vd
+		}
+	}
 	for _, sc := range smScales {
 		s := benchmath.Summary{Center: c.C.f() * sc, Lo: smEnd(c.LoInf, c.Lo) * sc, Hi: smEnd(c.HiInf, c.Hi) * sc, Confidence: 0.95}
 		got := s.PctRangeString()
